@@ -780,6 +780,9 @@ def natural_site(rec, exc):
         return 0
     i = start
     while True:
+        # `raise e` in a handler adds a second entry for the same frame: the deeper one is where it came from
+        while i + 1 < len(frames) and frames[i + 1][0] is frames[i][0]:
+            i += 1
         f, ln = frames[i]
         key = "%s::%s" % (rec.rel(f.f_code.co_filename), f.f_code.co_qualname)
         site = rec.site_at(key, ln)
@@ -932,6 +935,10 @@ def run_case(ctx, case, cap=60):
                     ctx.fail("C08:%s:retry-failed" % name, "%s still fails after the cause was removed" % name,
                              {"case": case, "retry": o2["raised"], "msg": o2.get("raised_msg")})
         n = clean["nfile"]
+        nat = clean.get("natural")
+        if nat is not None:
+            # the input itself makes the call fail: inject only before that point (one failure per run)
+            n = len([c for c in clean["calls"][:nat["before"]] if c[1] != 8]) - (1 if "in_call" in nat else 0)
         pts = case.get("faults") or fault_points(ctx.rng, n, cap)
         kinds = [1, 2] if kind in ("xw", "hw", "aw") else [1]
         for k in pts:
@@ -940,11 +947,9 @@ def run_case(ctx, case, cap=60):
             for fk in kinds:
                 if fk == 2 and k % 3 != 1 and len(pts) > 12:
                     continue          # AttributeError-class faults: a third of the points of long runs
-                if kind in ("hr", "hro", "ar"):
-                    kind2, obj2, path2 = kind, None, path
-                else:
-                    kind2, obj2, path2 = kind, obj, path
-                o, _ = observe(kind2, obj2, path2, fault_at=k, fault_kind=fk)
+                if kind in ("xw", "hw", "aw"):
+                    obj = make_input(case, root)[1]      # a fresh document for every run
+                o, _ = observe(kind, obj, path, fault_at=k, fault_kind=fk)
                 o["k"], o["fk"] = k, fk
                 rec["faults"].append(o)
                 site = o["calls"][-1][0] if o["calls"] else 0
